@@ -7,7 +7,8 @@
 #  3. (race) free-running -race pass of cache readers/writers on the untransformed sources.
 set -euo pipefail
 export GOFLAGS=-mod=mod GOPROXY=off GOSUMDB=off GOTOOLCHAIN=local
-V=/verif
+V=$(dirname "$(readlink -f "$0")")
+export VERIF_DIR=$V
 S=$(mktemp -d ${VERIF_SCRATCH:-/var/tmp}/vself-XXXXXX)
 trap 'rm -rf "$S"' EXIT
 cd $V
